@@ -12,6 +12,8 @@ pub enum Call {
     Bytes(Vec<u8>),
     Seeded,
     Reset,
+    /// assign the public fields min_opcodes / max_opcodes (what the Python set_opcode_range does)
+    SetRange(usize, usize),
 }
 
 impl Call {
@@ -20,6 +22,7 @@ impl Call {
             Call::Bytes(b) => format!("generate_from_arbitrary({})", lexer::hex(b)),
             Call::Seeded => "generate()".into(),
             Call::Reset => "reset()".into(),
+            Call::SetRange(a, b) => format!("min_opcodes={a}; max_opcodes={b}"),
         }
     }
     pub fn to_json(&self) -> serde_json::Value {
@@ -27,12 +30,14 @@ impl Call {
             Call::Bytes(b) => json!({"call": "generate_from_arbitrary", "bytes_hex": lexer::hex(b)}),
             Call::Seeded => json!({"call": "generate"}),
             Call::Reset => json!({"call": "reset"}),
+            Call::SetRange(a, b) => json!({"call": "set_range", "min": a, "max": b}),
         }
     }
     pub fn from_json(v: &serde_json::Value) -> Call {
         match v["call"].as_str() {
             Some("generate_from_arbitrary") => Call::Bytes(lexer::unhex(v["bytes_hex"].as_str().unwrap_or(""))),
             Some("generate") => Call::Seeded,
+            Some("set_range") => Call::SetRange(v["min"].as_u64().unwrap_or(0) as usize, v["max"].as_u64().unwrap_or(0) as usize),
             _ => Call::Reset,
         }
     }
@@ -45,6 +50,10 @@ pub fn run_history(cfg: &Cfg, seed: u64, h: &[Call]) -> Vec<(usize, Result<Vec<u
     for (i, c) in h.iter().enumerate() {
         match c {
             Call::Reset => g.reset(),
+            Call::SetRange(a, b) => {
+                g.min_opcodes = *a;
+                g.max_opcodes = *b;
+            }
             Call::Bytes(b) => {
                 let r = run_on(&mut g, Entropy::Bytes(b), false, false);
                 out.push((i, if let Some(p) = r.panic { Err(format!("panic: {p}")) } else { r.out }));
@@ -60,6 +69,18 @@ pub fn run_history(cfg: &Cfg, seed: u64, h: &[Call]) -> Vec<(usize, Result<Vec<u
 
 pub fn fresh(cfg: &Cfg, seed: u64, c: &Call) -> Result<Vec<u8>, String> {
     run_history(cfg, seed, std::slice::from_ref(c)).pop().map(|x| x.1).unwrap_or(Err("no call".into()))
+}
+
+/// the configuration in force at call `i` of history `h` (the last SetRange before it wins)
+pub fn cfg_at(cfg: &Cfg, h: &[Call], i: usize) -> Cfg {
+    let mut c = cfg.clone();
+    for x in &h[..i] {
+        if let Call::SetRange(a, b) = x {
+            c.min = *a;
+            c.max = *b;
+        }
+    }
+    c
 }
 
 fn alphabet(p: u8, thorough: bool) -> Vec<Call> {
@@ -128,6 +149,24 @@ pub fn c08(tier: &str) -> i32 {
             }
         }
     }
+    // size classes: a large earlier result (hundreds of KiB) must not influence a later small one
+    for p in 0..=5u8 {
+        let big = if quick { 14_000 } else { 30_000 };
+        for cfg in [Cfg::new(p), Cfg::new(p).flags(true, true).muts(&Mk::ALL, 0.5, true)] {
+            if quick && !cfg.mutators.is_empty() && p % 2 == 1 {
+                continue;
+            }
+            let small_in = Call::Bytes(vec![0x07, 0x21, 0x03, 0x09]);
+            for h in [
+                vec![Call::SetRange(big, big), Call::Seeded, Call::SetRange(3, 6), Call::Seeded],
+                vec![Call::SetRange(big, big), Call::Seeded, Call::SetRange(3, 6), Call::Reset, small_in.clone()],
+                vec![Call::SetRange(2, 2), small_in.clone(), Call::SetRange(big / 2, big / 2), Call::Bytes(vec![0xff; 64]), Call::SetRange(2, 2), small_in.clone(), Call::Seeded],
+            ] {
+                jobs.push((cfg.clone(), 5 + p as u64, h));
+                n_hist += 1;
+            }
+        }
+    }
     let results: Vec<(u64, Vec<(String, String, serde_json::Value)>)> = jobs
         .par_iter()
         .map(|(cfg, seed, h)| {
@@ -136,7 +175,7 @@ pub fn c08(tier: &str) -> i32 {
             let mut calls = 0u64;
             for (i, r) in &got {
                 calls += 1;
-                let want = fresh(cfg, *seed, &h[*i]);
+                let want = fresh(&cfg_at(cfg, h, *i), *seed, &h[*i]);
                 if *r != want {
                     let what = match (&r, &want) {
                         (Ok(a), Ok(b)) if a.len() > b.len() && a.ends_with(b) => "previous-output-prepended",
@@ -145,9 +184,10 @@ pub fn c08(tier: &str) -> i32 {
                         (Err(_), _) => "error-on-reuse",
                         _ => "fresh-call-failed",
                     };
-                    let prior_reset = h[..*i].last() == Some(&Call::Reset);
+                    let prior_reset = h[..*i].iter().rev().find(|c| !matches!(c, Call::SetRange(..))) == Some(&Call::Reset);
+                    let after_big = h[..*i].iter().any(|c| matches!(c, Call::SetRange(a, _) if *a >= 1000));
                     bad.push((
-                        format!("{what}:{}:{}", if prior_reset { "after-reset" } else { "no-reset" }, match h[*i] { Call::Seeded => "generate", _ => "generate_from_arbitrary" }),
+                        format!("{what}:{}{}:{}", if prior_reset { "after-reset" } else { "no-reset" }, if after_big { ":after-large-output" } else { "" }, match h[*i] { Call::Seeded => "generate", _ => "generate_from_arbitrary" }),
                         format!(
                             "{}: call #{i} {} returned {} bytes, a fresh generator returns {} bytes",
                             cfg.describe(),
@@ -191,7 +231,7 @@ pub fn replay(v: &serde_json::Value) -> i32 {
     let got = run_history(&cfg, seed, &h);
     let mut bad = 0;
     for (i, r) in got {
-        let want = fresh(&cfg, seed, &h[i]);
+        let want = fresh(&cfg_at(&cfg, &h, i), seed, &h[i]);
         let same = r == want;
         println!("call #{i} {}: {} bytes; fresh generator: {} bytes; equal={same}", h[i].describe(), r.as_ref().map(|b| b.len()).unwrap_or(0), want.as_ref().map(|b| b.len()).unwrap_or(0));
         if !same {
